@@ -70,6 +70,9 @@ class _InflightOperations:
     def __len__(self) -> int:
         return len(self._processes) + len(self._sync_ops)
 
+    def discard_foreign_returncodes(self) -> None:
+        SigchldHelper.instance().discard_unknown(self._processes)
+
     def has_sync_ops(self) -> bool:
         return len(self._sync_ops) > 0
 
@@ -253,6 +256,10 @@ class Executor:
                         if self._running_parallel and self._slots > 1
                         else None
                     )
+                    # Every task launched so far is registered; any other
+                    # recorded return code belongs to a child we did not
+                    # launch and must not outlive this point (pid reuse).
+                    self._inflight_ops.discard_foreign_returncodes()
                     handle = next_op.start_execution(ctx, slot)
                     handle.slot = slot
                     self._inflight_ops.add_op(handle, next_op)
